@@ -383,6 +383,22 @@ def splitOnChar (sep : Char) : Str → List Str
       | [] => [[c]]
       | s :: ss => (c :: s) :: ss
 
+/-- `TarFile::from` (static_source_tar.rs:52-59): the dot-separated parts of the archive path are
+    visited from the right; `gz` / `br` add a decompression step, `tar` ends the loop, anything else
+    is an error (`none`).  The harness wraps its archives as .tar / .tar.gz / .tar.br / .tar.br.gz. -/
+inductive Unwrap where | gz | br
+deriving Repr, DecidableEq
+
+def tarStepsRev : List Str → Option (List Unwrap)
+  | [] => some []
+  | p :: rest =>
+    if p = ['t', 'a', 'r'] then some []
+    else if p = ['g', 'z'] then (tarStepsRev rest).map (Unwrap.gz :: ·)
+    else if p = ['b', 'r'] then (tarStepsRev rest).map (Unwrap.br :: ·)
+    else none
+
+def tarSteps (path : Str) : Option (List Unwrap) := tarStepsRev (splitOnChar '.' path).reverse
+
 def natOf (s : Str) : Option Nat := (String.ofList s).toNat?
 
 def parseEntry (base : Loc) (e : Str) : Option (Loc × Node) :=
